@@ -37,6 +37,8 @@ impl DailyMutations {
     }
 
     pub fn write(&self, conn: &Connection) -> std::result::Result<(), rusqlite::Error> {
+        #[cfg(feature = "verif")]
+        crate::verif::fault("marks_write")?;
         let mut node_daily_stmt = conn.prepare_cached(
             "INSERT INTO _daily_log (
                     room_id,
@@ -76,6 +78,8 @@ impl DailyLogsUpdate {
     /// it makes mutations a slower when updating an old node but it makes room synchronisation between peers much easier
     ///
     pub fn compute(&mut self, conn: &Connection) -> Result<(), rusqlite::Error> {
+        #[cfg(feature = "verif")]
+        crate::verif::fault("compute")?;
         let mut daily_log_stmt = conn.prepare_cached(
             " 
             SELECT room_id, entity, date, need_recompute, daily_hash, history_hash
@@ -562,6 +566,8 @@ impl RoomChangelog {
         mdate: i64,
         conn: &Connection,
     ) -> Result<(), rusqlite::Error> {
+        #[cfg(feature = "verif")]
+        crate::verif::fault("room_changelog")?;
         let mut stmt = conn.prepare_cached(ROOM_LOG_INSERT)?;
         stmt.execute((room_id, mdate))?;
         Ok(())
